@@ -25,7 +25,7 @@ func init() {
 			"not demanded: duplicates inside ColumnOrder/Select, Select() and Drop of every column, Drop of unknown names (ignored by the implementation), negative Const counts",
 			"observation through typed views is faithful (C09)",
 		},
-		Stages:  stages(20000, 500000, 0, 0),
+		Stages:  stages(20000, 2500000, 0, 0),
 		RunCase: runC08,
 	})
 }
